@@ -496,14 +496,14 @@ type (
 	connFTR struct{ *End }
 )
 
-func (c connF) Flush() error           { return c.flush() }
-func (c connFT) Flush() error          { return c.flush() }
-func (c connFR) Flush() error          { return c.flush() }
-func (c connFTR) Flush() error         { return c.flush() }
-func (c connT) TxBufferLen() int       { return c.txBufferLen() }
-func (c connFT) TxBufferLen() int      { return c.txBufferLen() }
-func (c connTR) TxBufferLen() int      { return c.txBufferLen() }
-func (c connFTR) TxBufferLen() int     { return c.txBufferLen() }
+func (c connF) Flush() error             { return c.flush() }
+func (c connFT) Flush() error            { return c.flush() }
+func (c connFR) Flush() error            { return c.flush() }
+func (c connFTR) Flush() error           { return c.flush() }
+func (c connT) TxBufferLen() int         { return c.txBufferLen() }
+func (c connFT) TxBufferLen() int        { return c.txBufferLen() }
+func (c connTR) TxBufferLen() int        { return c.txBufferLen() }
+func (c connFTR) TxBufferLen() int       { return c.txBufferLen() }
 func (c connR) SetRobust(r bool) error   { c.setRobust(r); return nil }
 func (c connFR) SetRobust(r bool) error  { c.setRobust(r); return nil }
 func (c connTR) SetRobust(r bool) error  { c.setRobust(r); return nil }
